@@ -1,5 +1,8 @@
 """C06 - matcher verdicts obey their declared semantics compositionally."""
 import itertools
+import os
+import shutil
+import tempfile
 
 from hypothesis import strategies as st
 
@@ -13,7 +16,15 @@ RULE = ("Typed matcher-expression trees (depth <= 3 random; depth <= 2 exhaustiv
         "per-case scratch directory); match() is compared with a reference predicate written from the "
         "docstrings (MatchesSetwise = maximum bipartite matching, SameMembers = multiset equality, ...); "
         "verdict must repeat on a second call and on a rebuilt matcher, and deep snapshots of matcher and "
-        "matchee must be unchanged. Non-trivial: tree depth >= 2; distinct = distinct canonical (tree, value).")
+        "matchee (for an exc_info tuple also traceback chain, cause / context / notes) must be unchanged. "
+        "The same matcher object is then asked about a second, different matchee and must answer what the reference "
+        "says for that one. Exhaustive grids back every low-rate corner: DocTestMatches rules (ELLIPSIS, <BLANKLINE>, "
+        "True/1, trailing newline, empty example, backslash) on the matching side, empty / repeated leaf arguments, regex "
+        "flags S / M / X, Warnings / IsDeprecated x lists of 0-2 warnings and raising callables, tuple / instance forms of "
+        "MatchesException, a symbolic link to a directory, directories whose raw listing is not sorted (probed on the "
+        "host), and leaves built directly (WarningMessage filename / line, non-bool predicates, IsInstance on bool / float). "
+        "Where a docstring admits two readings both verdicts are admitted (see ASSUMPTIONS). "
+        "Non-trivial: tree depth >= 2; distinct = distinct canonical (tree, value).")
 ASSUMPTIONS = [
     "values come from the matcher's own domain (comparable ints for LessThan/GreaterThan, homogeneous str keys "
     "for dict matchers, objects that have the attributes, paths inside the scratch directory)",
@@ -22,6 +33,21 @@ ASSUMPTIONS = [
     "filesystem matchers applied to an object of the wrong kind (HasPermissions on a missing path, "
     "TarballContains on a non-tarball, FileContains on a directory) are outside the documented domain: "
     "executed, verdict not asserted",
+    "ambiguous docstrings, both readings admitted: WarningMessage(category) - identity of the category (the code) or "
+    "issubclass (only Warning itself is a proper superclass in the alphabet); IsDeprecated - exactly one warning in "
+    "total and it is a DeprecationWarning (the code) or exactly one DeprecationWarning among the warnings (when a "
+    "tree holds both IsDeprecated and Warnings nodes and the two readings differ, the verdict is not asserted)",
+    "an ordinary exception (Exception subclass) raised by a callable under Warnings / IsDeprecated: nothing is "
+    "documented, so letting exactly that exception escape (the code) and answering with a Mismatch / a verdict are "
+    "both admitted; a different exception is not; non-Exception errors must escape unchanged",
+    "warnings emitted by match() itself are not observed (cases run under simplefilter('ignore')); interpreter "
+    "options that turn them into errors (-W error, -bb, -X warn_default_encoding) are outside the check",
+    "environment: Linux (sticky-bit modes 1644 / 1755 on a regular file can be set by its owner; os.symlink "
+    "available) and UTF-8 mode (./check pins PYTHONUTF8=1: scratch files hold UTF-8 text, FileContains reads with "
+    "the default encoding); the sorted() of DirContains is observable only if the scratch file system lists some "
+    "directory out of order - the grid probes for such a directory and falls back to a fixed one",
+    "side-effect:matcher-* reports any change of vars(matcher), including a harmless cache; the message says when "
+    "every verdict was still the documented one",
 ]
 
 
@@ -36,8 +62,86 @@ def s_case(draw):
     list_flavour = "list"
     if domain == "list" and not ML.has_node(spec, lambda n: n.get("d") == "list" and n["m"] in ("Equals", "Is")):
         list_flavour = draw(st.sampled_from(["list", "tuple", "tuple"]))       # a tuple equals no list, and copies of a tuple are the tuple
-    return {"domain": domain, "matcher": spec, "value": value, "fs": fs, "fs2": fs2, "list_flavour": list_flavour,
-            "dict_flavour": draw(st.sampled_from(["dict", "dict", "defaultdict", "Counter"])) if domain == "dict" else "dict"}
+    out = {"domain": domain, "matcher": spec, "value": value, "fs": fs, "fs2": fs2, "list_flavour": list_flavour,
+           "dict_flavour": draw(st.sampled_from(["dict", "dict", "defaultdict", "Counter"])) if domain == "dict" else "dict"}
+    out["value2"] = draw(ML.VALUES[domain])         # drawn last: the same matcher object is asked about another matchee afterwards
+    return out
+
+
+class Env6(ML.Env):
+    """The scratch directory of vp.matchers plus, when the fs spec says so, a symbolic link to a directory."""
+
+    def populate(self):
+        ML.Env.populate(self)
+        if self.fs is not None and self.fs.get("link_dir"):
+            os.symlink("dir_a", self.path("link_dir"))
+
+
+def _rewrite(spec, fn):
+    """A copy of the matcher spec with ``fn`` applied to every node (children first)."""
+    def walk(x):
+        if isinstance(x, dict) and "m" in x:
+            return fn({k: walk(v) for k, v in x.items()})
+        if isinstance(x, dict):
+            return {k: walk(v) for k, v in x.items()}
+        if isinstance(x, list):
+            return [walk(v) for v in x]
+        return x
+    return walk(spec)
+
+
+def _deref(name):
+    """link_dir is a symbolic link to dir_a: every filesystem matcher follows it, so the reference sees dir_a."""
+    return name.replace("link_dir", "dir_a") if isinstance(name, str) else name
+
+
+def _readings(ms, value, domain):
+    """The (spec, value) pairs under which the documented predicate can defensibly be read; None when the
+    readings cannot be told apart by rewriting (verdict not asserted).  The first one is what the code does today.
+    - WarningMessage(category): 'a warning type' - identity of the category, or (as the warnings module and
+      pytest.warns read it) membership: only Warning itself is a proper superclass in the alphabet.
+    - IsDeprecated: 'produces exactly one DeprecationWarning' - exactly one warning which is a DeprecationWarning, or
+      exactly one DeprecationWarning among the warnings."""
+    out = [(ms, value)]
+    if domain == "warning" and ML.has_node(ms, lambda n: n["m"] == "WarningMessage" and n.get("cat") == "Warning"):
+        out.append((_rewrite(ms, lambda n: dict(n, cat=value["cat"]) if n["m"] == "WarningMessage" and n.get("cat") == "Warning" else n), value))
+    if domain == "callable" and isinstance(value, dict) and ML.has_node(ms, lambda n: n["m"] == "IsDeprecated"):
+        w = value.get("warn") or []
+        dep = [x for x in w if x[0] == "DeprecationWarning"]
+        if len(w) > 1 and len(dep) == 1:
+            if ML.has_node(ms, lambda n: n["m"] == "Warnings"):
+                return None
+            out.append((ms, dict(value, warn=dep)))
+    if domain == "path":
+        out = [(_rewrite(s, lambda n: dict(n, other=_deref(n["other"])) if n["m"] == "SamePath" else n), _deref(v)) for s, v in out]
+    return out
+
+
+def _admitted(ms, value, domain, env):
+    """(primary, admitted): the verdict under the first reading (or a Propagates), and the set of verdicts
+    the documentation admits (None: not asserted)."""
+    rs = _readings(ms, value, domain)
+    verdicts = []
+    for s, v in (rs if rs is not None else [(ms, value)]):
+        try:
+            verdicts.append(bool(ML.ref(s, v, env)))
+        except ML.Propagates as p:
+            return p, None
+    return verdicts[0], (set(verdicts) if rs is not None else None)
+
+
+def _snap_value(domain, live):
+    """Snapshot of the matchee; for an exc_info tuple also the state the exception object carries besides its
+    args: traceback chain (line numbers, names of the frames' locals), cause / context / notes."""
+    out = ML.snapshot(live)
+    if domain == "exc_info" and isinstance(live, tuple) and len(live) == 3 and isinstance(live[1], BaseException):
+        e, tb, chain = live[1], live[2], []
+        while tb is not None:
+            chain.append((tb.tb_lineno, sorted(tb.tb_frame.f_locals)))
+            tb = tb.tb_next
+        out += " state=%r" % ((e.__traceback__ is live[2], chain, repr(e.__cause__), repr(e.__context__), e.__suppress_context__,
+                               list(getattr(e, "__notes__", ()))),)
+    return out
 
 
 def run_case(spec):
@@ -50,17 +154,14 @@ def run_case(spec):
 def _run_case(spec):
     vs = []
     domain, ms, value = spec["domain"], spec["matcher"], spec["value"]
-    with ML.Env(spec.get("fs"), defer=True) as env:
+    with Env6(spec.get("fs"), defer=True) as env:
         env.dict_flavour = spec.get("dict_flavour", "dict")      # dict subclasses with __missing__ are dicts too
         env.list_flavour = spec.get("list_flavour", "list")
         # a matcher constructed while the scratch directory is still empty: what it says later depends on the
         # file system at match time, not at construction time
         early = ML.build(ms, env) if spec.get("fs") is not None else None
         env.populate()
-        try:
-            want = ML.ref(ms, value, env)
-        except ML.Propagates as p:
-            want = p
+        want, admitted = _admitted(ms, value, domain, env)
         top = ms["m"]
         if isinstance(want, ML.Propagates) and want.exc_name not in ML.EXC_CLASSES:
             # outside the documented domain: run it, assert nothing about the verdict
@@ -74,7 +175,7 @@ def _run_case(spec):
         matcher = ML.build(ms, env)
         live = ML.live_value(domain, value, env)
         snap_m = ML.snapshot(matcher)
-        snap_v = ML.snapshot(live) if domain not in ("callable",) else None
+        snap_v = _snap_value(domain, live) if domain not in ("callable",) else None
 
         def do(m, lv):
             try:
@@ -87,7 +188,16 @@ def _run_case(spec):
         if env.list_flavour == "iter":
             live = ML.live_value(domain, value, env)         # the first match() has used the iterator up: a fresh one for the second
         if isinstance(want, ML.Propagates):
-            if kind != "raised" or type(res).__name__ != want.exc_name:
+            # Raises documents that a non-Exception error it was not asked about escapes.  For an ordinary exception
+            # raised by a callable handed to Warnings / IsDeprecated nothing is documented: letting it escape (what
+            # the code does) and answering with a Mismatch are both admitted, a different exception is not.
+            ordinary = issubclass(ML.EXC_CLASSES[want.exc_name], Exception)
+            if kind == "raised" and type(res).__name__ == want.exc_name:
+                pass
+            elif ordinary and kind == "verdict":
+                if res is not None and not (hasattr(res, "describe") and hasattr(res, "get_details")):
+                    vs.append(V("mismatch-protocol", top, "match() returned %r which is not a Mismatch" % (res,)))
+            else:
                 vs.append(V("propagation", top, "%s: a %s raised by the matchee should propagate, got %s %r" % (
                     top, want.exc_name, kind, res)))
             return Case(vs, ML.depth_of(ms) >= 2, ["propagates"])
@@ -95,7 +205,7 @@ def _run_case(spec):
             vs.append(V("raises", "%s-%s" % (top, type(res).__name__), "match(%r) raised %r for %r" % (value, res, ms)))
             return Case(vs, ML.depth_of(ms) >= 2, ["raised"])
         got = res is None
-        if got != want:
+        if admitted is not None and got not in admitted:
             vs.append(V("verdict", top, "%s.match(%r) %s, documented predicate says %s; matcher spec %r" % (
                 top, value, "matched" if got else "mismatched", "match" if want else "mismatch", ms)))
         if res is not None:
@@ -114,25 +224,32 @@ def _run_case(spec):
             if (k4, r4 is None) != (kind, got):
                 vs.append(V("determinism", "built-before-the-files-existed-" + top,
                             "a structurally equal matcher constructed before the files were created gives a different verdict"))
+        if spec.get("value2") is not None and not vs:
+            # the very same matcher object is asked about another matchee: what it says must not depend on what it saw before
+            value2 = spec["value2"]
+            wantb, admittedb = _admitted(ms, value2, domain, env)
+            if not isinstance(wantb, ML.Propagates) and admittedb is not None:
+                kb, rb = do(matcher, ML.live_value(domain, value2, env))
+                if kb != "verdict" or (rb is None) not in admittedb:
+                    vs.append(V("verdict", "after-another-matchee-" + top, "%s: after match(%r), the same matcher object says %s for %r, the documented predicate says %s; matcher spec %r" % (
+                        top, value, "match" if kb == "verdict" and rb is None else ("mismatch" if kb == "verdict" else "raised %r" % (rb,)), value2, "match" if wantb else "mismatch", ms)))
         if spec.get("fs2") is not None and not vs:
             # the files change; the very same matcher object (and the one built before any file existed) is asked again
             env.repopulate(spec["fs2"])
-            try:
-                want2 = ML.ref(ms, value, env)
-            except ML.Propagates:
-                want2 = None
-            if want2 is not None:
+            want2, admitted2 = _admitted(ms, value, domain, env)
+            if not isinstance(want2, ML.Propagates) and admitted2 is not None:
                 for who, mm in (("same-matcher", matcher), ("early-matcher", early)):
                     k5, r5 = do(mm, ML.live_value(domain, value, env))
-                    if k5 != "verdict" or (r5 is None) != want2:
+                    if k5 != "verdict" or (r5 is None) not in admitted2:
                         vs.append(V("verdict", "stale-after-the-files-changed-" + top, "%s: after the scratch directory changed from %r to %r, match(%r) says %s, the documented predicate says %s" % (
                             who, spec["fs"], spec["fs2"], value, "match" if k5 == "verdict" and r5 is None else (k5 if k5 != "verdict" else "mismatch"), "match" if want2 else "mismatch")))
                         break
             snap_m = ML.snapshot(matcher)
+        unaffected = "" if vs else " (every verdict was the documented one: only the 'modifies neither the matcher nor the matched value' clause is concerned)"
         if ML.snapshot(matcher) != snap_m:
-            vs.append(V("side-effect", "matcher-" + top, "match() modified the matcher: %s -> %s" % (snap_m[:300], ML.snapshot(matcher)[:300])))
-        if snap_v is not None and ML.snapshot(live) != snap_v:
-            vs.append(V("side-effect", "matchee-" + top, "match() modified the matchee: %s -> %s" % (snap_v[:200], ML.snapshot(live)[:200])))
+            vs.append(V("side-effect", "matcher-" + top, "match() modified the matcher: %s -> %s%s" % (snap_m[:300], ML.snapshot(matcher)[:300], unaffected)))
+        if snap_v is not None and _snap_value(domain, live) != snap_v:
+            vs.append(V("side-effect", "matchee-" + top, "match() modified the matchee: %s -> %s%s" % (snap_v[:300], _snap_value(domain, live)[:300], unaffected)))
     d = ML.depth_of(ms)
     return Case(vs, d >= 2, ["domain=" + domain, "depth=%d" % d, "top=" + top, "match" if want else "mismatch"],
                 {"verdict": "match" if got else "mismatch"})
@@ -228,9 +345,43 @@ def _enum_one_shot():
             yield {"domain": "list", "matcher": t, "value": v, "fs": None, "list_flavour": "iter"}
 
 
+_DIR_SHAPES = [["inner", "x"], ["x", "inner"], ["inner", "x", "y"], ["y", "x", "inner"]]
+_PROBED = []
+
+
+def _unsorted_dir_shape():
+    """A list of file names which, created in that order in the scratch file system, os.listdir() does NOT return
+    in sorted order (so that the sorted() of DirContains is observable whatever the host file system does: hash
+    order on ext4, creation order on tmpfs, sorted on some others).  Deterministic for a given file system; the
+    fallback keeps the number of cases the same."""
+    if _PROBED:
+        return _PROBED[0]
+    pool = ["inner", "x", "y", "a", "b", "c", "d", "e", "f", "g", "h"]
+    cands = [list(c) for n in (2, 3) for c in itertools.permutations(pool[:6], n)]
+    cands += [pool, pool[::-1]]
+    base = os.path.join(ML.VERIF, ".work")
+    os.makedirs(base, exist_ok=True)
+    found = None
+    for names in cands:
+        d = tempfile.mkdtemp(prefix="probe-", dir=base)
+        try:
+            for n in names:
+                with open(os.path.join(d, n), "w"):
+                    pass
+            listing = os.listdir(d)
+        finally:
+            shutil.rmtree(d, ignore_errors=True)
+        if listing != sorted(listing):
+            found = names
+            break
+    _PROBED.append(found or ["inner", "y", "x"])
+    return _PROBED[0]
+
+
 def _enum_fs_and_raises():
-    """Small exhaustive grids for the sparse corners: filesystem matchers x scratch-directory shapes, and
-    Raises/raises x every kind of raised error (incl. non-Exception ones, matched and unmatched)."""
+    """Small exhaustive grids for the sparse corners: filesystem matchers x scratch-directory shapes (with a
+    symbolic link to a directory, and directories whose raw listing is not sorted), and Raises/raises x every kind
+    of raised error (incl. non-Exception ones, matched and unmatched; tuple forms naming a superclass)."""
     M = ML.M
     perms = ["0644", "0600", "0755", "1644", "1755", "0777"]
     for mode in ["0644", "0600", "0755", "1644", "1755"]:
@@ -239,27 +390,192 @@ def _enum_fs_and_raises():
             for path in ("file_a", "link_a"):
                 yield {"domain": "path", "matcher": M("HasPermissions", "path", perm=perm), "value": path, "fs": fs}
                 yield {"domain": "path", "matcher": M("Not", "path", inner=M("HasPermissions", "path", perm=perm)), "value": path, "fs": fs}
-    fs = {"file_a": "hello\n", "file_a_mode": "0644", "file_b": "hello", "dir_a": ["inner", "y"], "tar_a": ["m2"]}
+    fs = {"file_a": "hello\n", "file_a_mode": "0644", "file_b": "hello", "dir_a": ["inner", "y"], "tar_a": ["m2"], "link_dir": True}
     leaves = [M("PathExists", "path"), M("DirExists", "path"), M("FileExists", "path"), M("DirContains", "path", filenames=["inner", "y"]),
               M("DirContains", "path", filenames=[]), M("FileContains", "path", contents="hello\n"), M("FileContains", "path", contents="hello"),
               M("SamePath", "path", other="file_a"), M("SamePath", "path", other="dir_a/../file_a"), M("SamePath", "path", other="link_a"),
+              M("SamePath", "path", other="dir_a"), M("SamePath", "path", other="link_dir"), M("SamePath", "path", other="link_dir/inner"),
               M("TarballContains", "path", paths=["m2"]), M("TarballContains", "path", paths=[])]
-    fs_later = {"file_a": "hello", "file_a_mode": "0600", "file_b": "hello\n", "dir_a": ["x"], "tar_a": ["m1"]}
+    fs_later = {"file_a": "hello", "file_a_mode": "0600", "file_b": "hello\n", "dir_a": ["x"], "tar_a": ["m1"], "link_dir": True}
     for lf in leaves:
-        for path in ML.PATH_NAMES:
+        for path in ML.PATH_NAMES + ["link_dir", "link_dir/inner"]:
             yield {"domain": "path", "matcher": lf, "value": path, "fs": fs}
             yield {"domain": "path", "matcher": lf, "value": path, "fs": fs, "fs2": fs_later}
             yield {"domain": "path", "matcher": lf, "value": path, "fs": fs_later, "fs2": fs}
+    # the directory listing is matched SORTED, in the filenames form and in the matcher form alike
+    for shape in _DIR_SHAPES + [_unsorted_dir_shape()]:
+        fs = {"file_a": "", "file_a_mode": "0644", "file_b": "x", "dir_a": shape, "tar_a": [], "link_dir": True}
+        up = sorted(shape)
+        down = up[::-1]
+        dleaves = [M("DirContains", "path", filenames=up), M("DirContains", "path", filenames=down), M("DirContains", "path", filenames=up[:-1]),
+                   M("DirContains", "path", matcher=M("Equals", "list", l=up)), M("DirContains", "path", matcher=M("Equals", "list", l=down)),
+                   M("DirContains", "path", matcher=M("MatchesListwise", "list", inner=[M("Equals", "str", s=n) for n in up], first_only=False)),
+                   M("DirContains", "path", matcher=M("AfterPreprocessing", "list", fn="len", inner=M("Equals", "int", k=len(up)), annotate=False))]
+        for lf in dleaves:
+            for path in ("dir_a", "link_dir", "dir_empty"):
+                yield {"domain": "path", "matcher": lf, "value": path, "fs": fs, "value2": "dir_empty" if path != "dir_empty" else "dir_a"}
+                yield {"domain": "path", "matcher": M("Not", "path", inner=lf), "value": path, "fs": fs}
     raised = ["ValueError", "KeyError", "LookupError", "CustomError", "KeyboardInterrupt", "SystemExit", "CustomBase"]
     expected = raised + ["Exception", "BaseException", "ArithmeticError"]
     callables = [{"ret": 1}] + [{"raise": {"exc": e, "args": ["boom"]}} for e in raised]
+    tuples = [["KeyError", "CustomError"], ["LookupError"], ["Exception", "KeyError"], ["ArithmeticError", "LookupError"], ["BaseException"]]
     for c in callables:
         yield {"domain": "callable", "matcher": M("Raises", "callable", inner=None), "value": c, "fs": None}
         for e in expected:
             yield {"domain": "callable", "matcher": M("raises", "callable", form="type", exc=e), "value": c, "fs": None}
             yield {"domain": "callable", "matcher": M("Not", "callable", inner=M("raises", "callable", form="type", exc=e)), "value": c, "fs": None}
             yield {"domain": "callable", "matcher": M("Raises", "callable", inner=M("MatchesException", "exc_info", form="type", exc=e, value_re="bo+m")), "value": c, "fs": None}
-        yield {"domain": "callable", "matcher": M("Raises", "callable", inner=M("MatchesException", "exc_info", form="tuple", excs=["KeyError", "CustomError"])), "value": c, "fs": None}
+        for t in tuples:
+            yield {"domain": "callable", "matcher": M("Raises", "callable", inner=M("MatchesException", "exc_info", form="tuple", excs=t)), "value": c, "fs": None}
+    for e in ["ValueError", "KeyError", "LookupError", "ZeroDivisionError", "CustomError", "RuntimeError"]:
+        for t in tuples[:4]:
+            yield {"domain": "exc_info", "matcher": M("MatchesException", "exc_info", form="tuple", excs=t), "value": {"exc": e, "args": ["boom"]}, "fs": None}
+            yield {"domain": "exc_info", "matcher": M("Not", "exc_info", inner=M("MatchesException", "exc_info", form="tuple", excs=t)), "value": {"exc": e, "args": ["boom"]}, "fs": None}
+        # the instance form compares type and args: args that differ only by type are different args
+        for args, vargs in (([1], ["1"]), (["1"], [1]), ([1], [1]), ([], [""]), (["boom", 2], ["boom", 2]), (["boom", 2], ["boom", "2"])):
+            yield {"domain": "exc_info", "matcher": M("MatchesException", "exc_info", form="instance", inst={"exc": "ValueError", "args": args}),
+                   "value": {"exc": e, "args": vargs}, "fs": None}
+
+
+def _enum_doctest():
+    """DocTestMatches: every rule of the doctest documentation decides at least once, on the matching side too."""
+    M = ML.M
+    examples = ML.DOC_EXAMPLES + ["a\n", "a b\n", "", "\\xe9", "a...a", "a\n..."]
+    values = ["", "a", "a b", "a  b", "a\nb", "a\n\nb", "a \n\nb", "aXb", "ab", "a...b", "True", "1", "False", "0", "<BLANKLINE>",
+              "é", "\\xe9", "a\n", "a b\n", "a\n  \nb", "aa", "a\nx"]
+    for ex in examples:
+        for fl in ML.DOC_FLAGS:
+            for i, v in enumerate(values):
+                m = M("DocTestMatches", "str", ex=ex, flags=fl)
+                yield {"domain": "str", "matcher": m, "value": v, "fs": None, "value2": values[(i + 7) % len(values)]}
+                yield {"domain": "str", "matcher": M("Not", "str", inner=m), "value": v, "fs": None}
+
+
+def _enum_leaves_and_warnings():
+    """Leaf semantics that random sampling meets in fewer than one case in a thousand, and Warnings / IsDeprecated x
+    every short list of warnings."""
+    import re
+    M = ML.M
+
+    def both(domain, m, values):
+        for i, v in enumerate(values):
+            yield {"domain": domain, "matcher": m, "value": v, "fs": None, "value2": values[(i + 1) % len(values)]}
+            yield {"domain": domain, "matcher": M("Not", domain, inner=m), "value": v, "fs": None}
+    strs = ["", "a", "b", "ab", "a b", "a\nb", "aXb", "ba", "b\na", "A\nB"]
+    for s_ in ("", "a", "b", "ab", "a\nb"):
+        for name in ("StartsWith", "EndsWith", "Contains", "Equals", "NotEquals"):
+            yield from both("str", M(name, "str", s=s_), strs)
+    for p_ in ("a.b", ".*b$", "^b", "a$", "a b", "a.*b", "A"):
+        for fl in (0, re.S, re.M, re.X, re.I, re.S | re.M, re.I | re.S):
+            yield from both("str", M("MatchesRegex", "str", p=p_, flags=fl), strs)
+        yield from both("str", M("MatchesRegex", "str", p=p_, flags=0, compiled=True), strs)
+    byts = [b"", b"a", b"ab", b"ba", b"\xff", b"a\xff"]
+    for s_ in (b"", b"a", b"\xff"):
+        for name in ("StartsWith", "EndsWith", "Contains", "Equals"):
+            yield from both("bytes", M(name, "bytes", s=s_), byts)
+    lists = [[], [0], [1], [1, 1], [0, 1], [1, 0], [1, 1, 0], [1, 0, 0], [1, 2], [2, 1, 1]]
+    for l in ([], [1], [1, 1], [0, 1], [1, 1, 0], [1, 1, 2]):
+        for name in ("ContainsAll", "SameMembers", "Equals"):
+            yield from both("list", M(name, "list", l=l), lists)
+    for n in (0, 1, 2):
+        yield from both("list", M("HasLength", "list", n=n), lists)
+        yield from both("list", M("Contains", "list", k=n), lists)
+        # a preprocessor runs on every matchee: nothing of an earlier matchee may be kept
+        for fn in ("len", "sum"):
+            yield from both("list", M("AfterPreprocessing", "list", fn=fn, inner=M("Equals", "int", k=n), annotate=True), lists)
+        yield from both("str", M("AfterPreprocessing", "str", fn="len", inner=M("Equals", "int", k=n), annotate=False), strs)
+        yield from both("str", M("HasLength", "str", n=n), strs)
+    for a in (0, 1):
+        yield from both("obj", M("AfterPreprocessing", "obj", fn="attr_a", inner=M("Equals", "int", k=a), annotate=True), [{"a": 0, "b": 0}, {"a": 1, "b": 0}, {"a": 0, "b": 1}])
+        yield from both("obj", M("MatchesStructure", "obj", a=M("Equals", "int", k=a), b=None, update=None), [{"a": 0, "b": 0}, {"a": 1, "b": 0}, {"a": 0, "b": 1}])
+    D, U = "DeprecationWarning", "UserWarning"
+    warns = [[], [[D, "old"]], [[D, "old"], [D, "old"]], [[D, "old"], [D, "use bar"]], [[U, "old"]], [[D, "old"], [U, "old"]], [[U, "old"], [D, "old"]],
+             [[U, "old"], [U, "old"]], [[D, "use bar"]]]
+    wm = [M("Warnings", "callable", inner=None)]
+    wm += [M("Warnings", "callable", inner=M("AfterPreprocessing", "list", fn="len", inner=M("Equals", "int", k=k), annotate=True)) for k in (0, 1, 2)]
+    wm += [M("IsDeprecated", "callable", inner=M("Always", "str")), M("IsDeprecated", "callable", inner=M("Equals", "str", s="old")),
+           M("IsDeprecated", "callable", inner=M("StartsWith", "str", s="use")), M("IsDeprecated", "callable", inner=M("Never", "str"))]
+    raising = [{"raise": {"exc": e, "args": ["x"]}} for e in ("ValueError", "KeyError", "KeyboardInterrupt", "SystemExit", "CustomBase")]
+    raising += [{"warn": [[D, "old"]], "ret": 0, "raise": {"exc": "ValueError", "args": ["x"]}}, {"warn": [[D, "old"]], "ret": 0, "raise": {"exc": "CustomBase", "args": ["x"]}}]
+    for m in wm:
+        yield from both("callable", m, [{"warn": w, "ret": 0} for w in warns])
+        yield from both("callable", m, raising)
+
+
+_PREDICATES = {
+    # name: (predicate, truth of its result) - "interpreted as a boolean": results that are truthy / falsy without being True / False
+    "remainder3": (lambda x: x % 3, lambda x: x % 3 != 0),
+    "none_unless_big": (lambda x: None if x < 2 else x, lambda x: x >= 2),
+    "list_of_divisors": (lambda x: [d for d in (2, 3) if x % d == 0], lambda x: x % 2 == 0 or x % 3 == 0),
+    "text": (lambda x: "x" * x, lambda x: x > 0),
+    "is_even": (lambda x: x % 2 == 0, lambda x: x % 2 == 0),
+}
+_TYPES = {"int": int, "bool": bool, "float": float, "str": str, "int|str": int | str, "NoneType": type(None)}
+_INSTANCES = {"True": True, "1": 1, "1.0": 1.0, "a": "a", "None": None, "0": 0, "False": False}
+
+
+def _enum_direct():
+    """Leaves outside the spec language of vp.matchers: WarningMessage(filename=, line=), MatchesPredicate with a
+    predicate whose result is truthy / falsy but not a bool, IsInstance on instances of subclasses (bool is an int)."""
+    for cat in ("DeprecationWarning", "UserWarning"):
+        for fn in (None, "somefile.py", "other.py"):
+            for line in (None, "x = 1", "y = 2"):
+                for ln in (None, 3, 4):
+                    for vline in ("x = 1", None):
+                        yield {"direct": "WarningMessage", "cat": cat, "filename": fn, "line": line, "lineno": ln,
+                               "value": {"cat": "DeprecationWarning", "msg": "old", "filename": "somefile.py", "lineno": 3, "line": vline}}
+    for name in sorted(_PREDICATES):
+        for x in range(0, 7):
+            yield {"direct": "MatchesPredicate", "pred": name, "value": x}
+    for types in (["int"], ["bool"], ["float"], ["str", "int"], ["int|str"], ["NoneType"], ["bool", "float"]):
+        for v in sorted(_INSTANCES):
+            yield {"direct": "IsInstance", "types": types, "value": v}
+
+
+def run_direct(spec):
+    import warnings
+    import testtools.matchers as tm
+    kind, v = spec["direct"], spec["value"]
+    if kind == "WarningMessage":
+        kw = {k: tm.Equals(spec[k]) for k in ("filename", "line", "lineno") if spec[k] is not None}
+        build = lambda: tm.WarningMessage(ML.WARN_CLASSES[spec["cat"]], **kw)
+        live = lambda: warnings.WarningMessage(message=ML.WARN_CLASSES[v["cat"]](v["msg"]), category=ML.WARN_CLASSES[v["cat"]],
+                                               filename=v["filename"], lineno=v["lineno"], line=v["line"])
+        want = spec["cat"] == v["cat"] and all(spec[k] is None or spec[k] == v[k] for k in ("filename", "line", "lineno"))
+    elif kind == "MatchesPredicate":
+        pred, truth = _PREDICATES[spec["pred"]]
+        build = lambda: tm.MatchesPredicate(pred, "%s is not accepted")
+        live = lambda: v
+        want = bool(truth(v))
+    else:
+        build = lambda: tm.IsInstance(*[_TYPES[t] for t in spec["types"]])
+        live = lambda: _INSTANCES[v]
+        want = isinstance(_INSTANCES[v], tuple(_TYPES[t] for t in spec["types"]))
+    vs = []
+    m = build()
+    snap = ML.snapshot(m)
+    seen = []
+    for who, mm in (("first call", m), ("second call", m), ("rebuilt matcher", build())):
+        try:
+            with warnings.catch_warnings():
+                warnings.simplefilter("ignore")
+                r = mm.match(live())
+        except (MemoryError, RecursionError):
+            raise
+        except BaseException as e:
+            vs.append(V("raises", "%s-%s" % (kind, type(e).__name__), "%s: match() raised %r for %r" % (who, e, spec)))
+            break
+        if r is not None and not (hasattr(r, "describe") and hasattr(r, "get_details")):
+            vs.append(V("mismatch-protocol", kind, "match() returned %r which is not a Mismatch" % (r,)))
+        seen.append(r is None)
+    if seen and seen[0] != want:
+        vs.append(V("verdict", kind, "%s %s, documented predicate says %s; spec %r" % (
+            kind, "matched" if seen[0] else "mismatched", "match" if want else "mismatch", spec)))
+    elif len(set(seen)) > 1:
+        vs.append(V("determinism", "second-call-" + kind, "verdicts of first call / second call / rebuilt matcher differ: %r; spec %r" % (seen, spec)))
+    if not vs and ML.snapshot(m) != snap:
+        vs.append(V("side-effect", "matcher-" + kind, "match() modified the matcher: %s -> %s (the verdicts were the documented ones)" % (snap[:300], ML.snapshot(m)[:300])))
+    return Case(vs, False, ["direct=" + kind, "match" if want else "mismatch"], {"verdict": "match" if seen and seen[0] else "mismatch"})
 
 
 def subchecks(tier):
@@ -267,7 +583,18 @@ def subchecks(tier):
     return [
         Sub("random_trees", run_case, s_case(), 4000 if q else 300000),
         Sub("filesystem_and_raises_grid", run_case, enum=_enum_fs_and_raises, enum_complete=True,
-            note="HasPermissions x 5 modes x 6 octal strings; 12 filesystem leaves x 9 paths; Raises/raises x 8 callables x 10 expected classes"),
+            note="HasPermissions x 5 modes x 6 octal strings; 15 filesystem leaves x 11 paths (one of them a symbolic link to a directory); "
+                 "DirContains (filenames and matcher form) x 5 directories, one of them probed so that its raw listing is not sorted; "
+                 "Raises/raises x 8 callables x 10 expected classes and 5 tuples of classes; MatchesException tuple / instance forms"),
+        Sub("doctest_rules_grid", run_case, enum=_enum_doctest, enum_complete=True,
+            note="DocTestMatches: 18 examples (empty, trailing newline, backslash, ellipsis, <BLANKLINE>, True/1) x 4 flag "
+                 "combinations x 22 values, plain and negated"),
+        Sub("leaf_and_warnings_grid", run_case, enum=_enum_leaves_and_warnings, enum_complete=True,
+            note="string / bytes / list leaves with empty and repeated arguments, MatchesRegex x 7 patterns x 7 flag sets, "
+                 "AfterPreprocessing asked about two different matchees in a row, Warnings / IsDeprecated x 9 lists of warnings"),
+        Sub("direct_leaf_grid", run_direct, enum=_enum_direct, enum_complete=True,
+            note="WarningMessage x filename / line / lineno matchers; MatchesPredicate x 5 predicates (4 of them returning non-bool "
+                 "truthy / falsy results) x 0..6; IsInstance x 7 type lists x 7 instances (bool, float, None included)"),
         Sub("nested_combinators_with_empties", run_case, enum=_enum_nested, enum_complete=True,
             note="22 inner list combinators (incl. MatchesAny() / MatchesAll() / AnyMatch on []) under 8 list parents x 31 "
                  "lists of lists, and under MatchesDict / ContainsDict / MatchesStructure / AfterPreprocessing"),
